@@ -1,9 +1,9 @@
 (* line driver for the C12 model.  One case per line, fields separated by one space, strings as
    hex UTF-16 code units (4 hex digits per unit, "-" = empty, "~" = null pointer = empty):
-     pat type msg cat file fn fnclean line tid ptr nattr (key tval)* ntf (fmt rendered)* [implout]
+     pat type msg cat file fn fnclean line tid ptr nattr (key tval)* ntf (fmt rendered)* [implout [N|V]]
    type = Qt enum number; line = decimal int; tid/ptr = binary digits, MSB first;
    tval = s<hex> | i<decimal> | b0 | b1;  (fmt, rendered) = the environment for %{time fmt}.
-   mode "check" (default): prints  <format_pattern hex> <oracle on implout: 1|0> <tokens> <active removing tokens> <documented reading hex> <1 if a time format was not in the environment>
+   mode "check" (default): prints  <format_pattern hex> <oracle on implout: 1|0> <tokens> <active removing tokens> <documented reading hex> <1 if a time format was not in the environment> <N|V: the result must be a null / non-null string>
    mode "model":           prints  <format_pattern hex>
    mode "inband":          prints  <output of the pre-repair in-band evaluator with marker U+200B>
    mode "tokens":          prints  a rendering of the token list *)
@@ -68,10 +68,13 @@ let () =
       | "tokens" -> print_endline (String.concat " " (List.map show_tok (parse_pattern pat)))
       | _ ->
         let o = if Array.length f > rest then unhex f.(rest) else [] in
+        let o_null = Array.length f > rest + 1 && f.(rest + 1) = "N" in
+        let msg_null = (f.(2) = "~") in
         let a = hex (format_pattern pat m) in
-        let v = if oracle_pattern pat m o then "1" else "0" in
+        let v = if oracle_pattern_null pat m msg_null o o_null then "1" else "0" in
         let full = hex (full_text pat m) in
         print_endline (String.concat " " [a; v; string_of_int (int_of_nat (n_tokens pat)); string_of_int (int_of_nat (n_removing pat m));
-                                           full; (if !env_miss then "1" else "0")])
+                                           full; (if !env_miss then "1" else "0");
+                                           (if result_is_null (parse_pattern pat) msg_null then "N" else "V")])
     with Failure _ | Invalid_argument _ -> print_endline "?")
   done with End_of_file -> ()
